@@ -28,7 +28,7 @@ VARIABLES jpc,       \* "spawned" | "pidopen" (being launched by another schedul
           outcome,   \* chosen at the start, revealed by the job's steps
           done, failed,         \* the marker files of the job directory
           pidf,                 \* the pid file: "absent" | "empty" (opened for writing, nothing written yet) | "written"
-          sawempty,             \* the scheduler read the pid file while it was empty
+          sawempty,             \* the scheduler looked at the pid file of a job being launched before it was written (absent or empty)
           alive,     \* the process table
           spc,       \* next access of the scheduler
           found,     \* aio_process() returned a process
@@ -84,7 +84,8 @@ Final == IF done THEN Decide("done") ELSE IF found THEN Decide("error") ELSE Dec
 
 SDone1 == spc = "done1" /\ Log("done?") /\ Quiet /\ Seen /\ spc' = "pidfile" /\ noted' = done /\ UNCHANGED <<found, decision>>
           \* (DONE is only noted here: the look-up of the process follows in any case)
-SPidFile == spc = "pidfile" /\ Log("pidfile?") /\ Quiet /\ Seen /\ IF pidf # "absent" THEN Goto("pidread") ELSE Goto("done2")
+SPidFile == spc = "pidfile" /\ Log("pidfile?") /\ Quiet /\ sawempty' = (sawempty \/ (pidf = "absent" /\ jpc = "spawned"))
+            /\ IF pidf # "absent" THEN Goto("pidread") ELSE Goto("done2")
 SPidRead == spc = "pidread" /\ Log("pidread") /\ Quiet /\ sawempty' = (sawempty \/ pidf = "empty")
             /\ IF pidf = "written" THEN Goto("procopen") ELSE IF GuardedRead THEN Goto("done2") ELSE Decide("crash")
                \* (absent: FileNotFoundError; empty: json.JSONDecodeError)
@@ -108,7 +109,7 @@ TypeOK == /\ jpc \in {"spawned", "pidopen", "run", "marked", "unpid", "gone"} /\
           /\ spc \in {"done1", "pidfile", "pidread", "procopen", "alive", "wait", "done2", "end"}
 Decides(d) == decision = "none" /\ decision' = d
 NoRelaunchOfSuccess == [][Decides("launch") => ~done']_vars
-NoRelaunchOfRunning == [][Decides("launch") => (jpc' # "run" \/ sawempty' \/ hist[1] = "spawned")]_vars
+NoRelaunchOfRunning == [][Decides("launch") => (jpc' # "run" \/ sawempty')]_vars
    \* (the corner left open: a job that another scheduler was launching at that very moment -- its pid file absent or empty
    \*  when looked at -- is launched a second time; the second script waits for the run lock and finds the success marker)
 TruthfulDone == decision = "done" => done /\ outcome = "ok"
